@@ -2,7 +2,7 @@
    Statements only; proofs in Proofs/C08.v.
    Suits: clubs = 0, diamonds = 1, hearts = 2, spades = 3; [next_suit_spec]: S -> H -> D -> C -> S. *)
 From CKC Require Import Base.Prelude Spec.Layout.
-From CKC Require Import Model.Card Model.Hands Model.Five Proofs.C01 Proofs.C02 Proofs.C08.
+From CKC Require Import Model.Card Model.Hands Model.Five Proofs.C01 Proofs.TableFacts Proofs.C08.
 Open Scope N_scope.
 
 Theorem C08_card : forall r s, r < 13 -> s < 4 -> shift_suit (layout r s) = layout r (next_suit_spec s).
